@@ -84,8 +84,10 @@ def _check_eval(E, env, ev, cond0, fq, tag):
         sets = [d for d in ev if d[0] == 'dict_set' and cache is not None and d[1] == cache.addr]
         E.oblige('%s::C09.%s.undefined_not_cached' % (fq, tag), len(sets) == 0, kind='trace',
                  detail='an undefined name is not cached')
-        E.oblige('%s::C09.%s.undefined_is_false' % (fq, tag), E.valid(E.to_val(env.locals['cond']) == E.to_val(NONE_)),
-                 kind='trace', detail='an undefined name counts as false (cond is None)')
+        # stated over behaviour, not over the temporary that holds the value: the iteration that found the name undefined
+        # goes on to the next condition ('iteration'); it is never the one whose body is chosen ('chosen')
+        E.oblige('%s::C09.%s.undefined_is_false' % (fq, tag), bool(tag == 'iteration'),
+                 kind='trace', detail='an undefined name counts as false: the chain moves on to the next condition, its body is not rendered')
 
 
 def _i_on_iteration(E, env, trace, fq, ordn):
